@@ -16,6 +16,7 @@ materialised selection over X's buffer is live) is steered around using the publ
 """
 import numpy as np
 
+from . import oracle
 from .core import Violation
 from .oracle import norm, same, py_sel, jsonable, lazy_ra
 
@@ -375,6 +376,9 @@ class Interp:
             except Exception as e:  # noqa: BLE001 - refusal
                 outcomes.append((w, ("refused", type(e).__name__, str(e)[:120])))
         self.executed += 1
+        if oracle.RECORDER is not None:   # C19: what world 0 observed, as comparable data
+            o0 = outcomes[0][1]
+            oracle.RECORDER.append([o0[0], o0[1] if o0[0] == "obs" else None])
         kinds = {o[0] for _, o in outcomes if _ in self.worlds}
         if len(kinds) > 1:
             raise Violation("worlds-disagree:status", step=st, outcomes={w.name: (o[0] if o[0] != "refused" else list(o)) for w, o in outcomes})
@@ -420,6 +424,8 @@ class Interp:
                     out.append({"unreadable": type(e).__name__ + ": " + str(e)[:100]})
             snaps[w.name] = out
         names = [w.name for w in self.worlds]
+        if oracle.RECORDER is not None:
+            oracle.RECORDER.append(["final", snaps[names[0]]])
         for other in names[1:]:
             for k, (a, b) in enumerate(zip(snaps[names[0]], snaps[other])):
                 if not same(a, b):
